@@ -231,8 +231,8 @@ def run(ctx):
         ctx.ob("C02.AMPM", aa, "%s maps into [%d, %d]" % (label, want[0], want[1]), isinstance(rv, Val) and rv.lo == want[0] and rv.hi == want[1],
                construct="_adjust_ampm: %s" % label, detail="interval analysis gives %r" % (rv,), analysis="IVL")
     av = prog.method(ps.qualname, "_ampm_valid", "C02.AMPM")
-    rng = [src(x) for x in walk_local(av.node) if isinstance(x, ast.Compare) and len(x.ops) == 2]
-    ctx.ob("C02.AMPM", av, "an AM/PM marker requires an hour in 0..12", rng == ["0 <= hour <= 12"], construct="_ampm_valid range", detail=str(rng))
+    from ..rules_common import check_effect_table
+    check_effect_table(ctx, "C02.AMPM", av, "an AM/PM marker requires an hour in 0..12 (otherwise ValueError, or the marker is ignored in fuzzy mode)", construct="_ampm_valid range")
 
     # ---------------------------------------------------------------- C02.NAMES
     def table(name):
